@@ -22,10 +22,12 @@ RULE = ("Every form factor that make_product_info accepts x 4 structure factors 
 ASSUMPTIONS = ["P alone (call_Fq) and S alone (call_kernel) are the reference for the averages and S(q) (C01 covers them)",
                "parameters are located by position in the public P@S table: P block, S block minus elided volfraction, modes"]
 REQUIRED_MONITORS = ["equals_documented_combination", "results_reproduce_intensity", "reported_S_is_S_at_reported_inputs",
-                     "reported_volume_is_P_shell_volume", "beta_2d_refused"]
+                     "reported_volume_is_P_shell_volume", "beta_2d_refused", "S_radius_is_weighted_mean_of_P_radius",
+                     "S_volfraction_ratio_is_ratio_of_weighted_volumes"]
 REQUIRED_BUCKETS = {"quick": ["mode:0", "mode:>0", "beta:on", "beta:off", "dim:1d", "dim:2d", "P:owns_volfraction",
                               "P:hollow", "P:python", "P:no_Fq", "pd:P", "pd:radius_effective", "mesh>100",
-                              "bigmesh_mode>0_no_F1_branch", "S:hardsphere", "S:hayter_msa", "S:squarewell", "S:stickyhardsphere", "lane:asan"]}
+                              "bigmesh_mode>0_no_F1_branch", "S:hardsphere", "S:hayter_msa", "S:squarewell", "S:stickyhardsphere", "lane:asan",
+                              "cutoff>0", "retained_weights_do_not_sum_to_one"]}
 REQUIRED_BUCKETS["thorough"] = REQUIRED_BUCKETS["quick"]
 SF = ["hardsphere", "hayter_msa", "squarewell", "stickyhardsphere"]
 _cache = {}
@@ -207,8 +209,13 @@ def run_case(case, rec):
         ctx = {"P": P, "S": S, "mode": mode, "beta": beta, "dim": dim, "pars": cp}
         rec.bucket("mode:0" if mode == 0 else "mode:>0", "beta:on" if beta else "beta:off", "dim:" + dim,
                    "lane:" + case.get("lane", "plain"))
+        # a weight cutoff drops mesh points, so the retained weights no longer sum to one
+        cut = float([1e-3, 1e-2][vi % 2]) if (pdP and (k + vi) % 3 == 0) else 0.0
+        if cut:
+            rec.bucket("cutoff>0")
+        ctx["cutoff"] = cut
         try:
-            I = np.asarray(direct_model.call_kernel(kernel, dict(cp)), float)
+            I = np.asarray(direct_model.call_kernel(kernel, dict(cp), cutoff=cut), float)
         except NotImplementedError:
             rec.check("beta_2d_refused", beta == 1 and dim == "2d", ctx)
             continue
@@ -218,7 +225,8 @@ def run_case(case, rec):
         results = kernel.results()
         # --- oracle: separate P and S calls
         kP = Pm.make_kernel(q)
-        F1, F2, Reff, Vs, ratio = direct_model.call_Fq(kP, dict(pp, radius_effective_mode=mode, scale=1.0, background=0.0))
+        F1, F2, Reff, Vs, ratio = direct_model.call_Fq(kP, dict(pp, radius_effective_mode=mode, scale=1.0, background=0.0),
+                                                       cutoff=cut)
         F2 = np.asarray(F2, float)
         kS = Sm.make_kernel(q)
         so = dict(sp, scale=1.0, background=0.0, volfraction=vf*ratio)
@@ -226,7 +234,7 @@ def run_case(case, rec):
             so["radius_effective"] = float(Reff)
             for suf in ("_pd", "_pd_n", "_pd_nsigma", "_pd_type"):
                 so.pop("radius_effective" + suf, None)
-        Sq = np.asarray(direct_model.call_kernel(kS, so), float)
+        Sq = np.asarray(direct_model.call_kernel(kS, so, cutoff=cut), float)
         PS = F2 + np.asarray(F1, float)**2*(Sq - 1) if beta else F2*Sq
         exp = scale/Vs*(1.0 if p_owns_vf else vf)*PS + bg
         sc = float(np.max(np.abs(exp - bg)))
@@ -245,9 +253,26 @@ def run_case(case, rec):
                   and abs(results["volume_ratio"] - ratio) <= 1e-12*abs(ratio),
                   dict(ctx, reported=[results["volume"], results["volume_ratio"]], P=[float(Vs), float(ratio)]))
         rep_R = float(results["radius_effective"])
+        if mode > 0 and not sas.is_python(pi):
+            # the radius S was evaluated at is the documented weighted mean over P's mesh (weights as retained by
+            # the cutoff, times |cos dtheta| under jitter), computed here from the model's own C functions
+            mesh = direct_model.get_mesh(pi, dict(pp, scale=1.0, background=0.0), dim=dim)
+            q1 = [float(q[0][0])] if dim == "1d" else ([float(q[0][0])], [float(q[1][0])])
+            ev = sas.Oracle(pi).evaluate(mesh, q1, dim, cut, mode)
+            if ev["weight"] > 0:
+                okR = abs(rep_R - ev["radius"]) <= 1e-9*abs(ev["radius"]) + 1e-300
+                rec.check("S_radius_is_weighted_mean_of_P_radius", okR,
+                          None if okR else dict(ctx, reported_radius_effective=rep_R, weighted_mean=ev["radius"],
+                                                total_weight=ev["weight"], mesh_points=ev["n"]))
+                okV = abs(float(results["volume_ratio"]) - ev["form"]/ev["shell"]) <= 1e-9*abs(ev["form"]/ev["shell"])
+                rec.check("S_volfraction_ratio_is_ratio_of_weighted_volumes", okV,
+                          None if okV else dict(ctx, reported_ratio=float(results["volume_ratio"]),
+                                                expected=ev["form"]/ev["shell"]))
+                if abs(ev["weight"] - 1.0) > 1e-6:
+                    rec.bucket("retained_weights_do_not_sum_to_one")
         if mode > 0:
             s2 = dict(so, radius_effective=rep_R, volfraction=vf*float(results["volume_ratio"]))
-            S2 = np.asarray(direct_model.call_kernel(kS, s2), float)
+            S2 = np.asarray(direct_model.call_kernel(kS, s2, cutoff=cut), float)
             rec.check("reported_S_is_S_at_reported_inputs", core.close(SQ, S2, 1e-12, 1e-14),
                       dict(ctx, reported_S=SQ, S_at_reported=S2, reported_radius_effective=rep_R))
         else:
